@@ -7,6 +7,7 @@ from harness import core, gen, common
 
 ID = 'C20'
 LEAN_TARGETS = ['Props.C20']
+TIE_A = ['io_files_eq']
 OBLIGATIONS = [
     'C20.transpose_involutive', 'C20.read_write_roundtrip', 'C20.compression_flag_irrelevant', 'C20.json_shape_roundtrip',
     'C20.json_elements_roundtrip', 'C20.json_empty_array_loses_shape', 'C20.load_signature_mismatch', 'C20.load_signature_match',
